@@ -1,6 +1,7 @@
 package main
 
 import (
+	"go/constant"
 	"fmt"
 	"go/ast"
 	"go/token"
@@ -348,6 +349,12 @@ func (vc *VC) intrinsic(st *State, call *ast.CallExpr, full string, sig *types.S
 				t = app("+", sum...)
 			}
 			st.assume(smtEq(app("qmarks", r), t))
+			if tv, ok := vc.curInfo.Types[call.Args[0]]; ok && tv.Value != nil && tv.Value.Kind() == constant.String {
+				// ghost: the first word of the result is the first word of a constant format (when it holds no verb)
+				vc.declareFun("sqlverb", "(Int) Int")
+				st.assume(smtEq(app("sqlverb", r), fmt.Sprint(sqlVerbCode(constant.StringVal(tv.Value)))))
+				vc.fmtOf[r] = constant.StringVal(tv.Value)
+			}
 			vc.assumptions["fmt.Sprintf: the number of `?` in the result is the sum over the format string and the string-typed arguments"] = true
 		}
 		return []*Value{intV(r, types.Typ[types.String])}, true
@@ -372,12 +379,16 @@ type FuncResult struct {
 	Callees     []string
 	Contract    *Contract
 	Paths       int
+	Locals      []LocalDecl
 }
 
 func (w *World) verifyFunc(pi *PkgInfo, fd *ast.FuncDecl, c *Contract, mode string) (res *FuncResult) {
 	vc := newVC(w, pi, fd, c)
 	vc.mode = mode
 	res = &FuncResult{Func: vc.fname, Key: funcKey(fd), Pkg: pi.Path, Contract: c}
+	if fd != nil {
+		res.Locals = localDecls(pi.P.TypesInfo, fd)
+	}
 	defer func() {
 		if r := recover(); r != nil {
 			switch e := r.(type) {
@@ -415,6 +426,17 @@ func (vc *VC) run() {
 		switch n.(type) {
 		case *ast.ForStmt, *ast.RangeStmt:
 			vc.loopIndex[n] = len(vc.loopIndex) + 1
+		}
+		return true
+	})
+	vc.callIndex = map[*ast.CallExpr]int{}
+	callCount := map[string]int{}
+	ast.Inspect(fd.Body, func(n ast.Node) bool {
+		if ce, ok := n.(*ast.CallExpr); ok {
+			if id := identOf(ce.Fun); id != nil {
+				callCount[id.Name]++
+				vc.callIndex[ce] = callCount[id.Name]
+			}
 		}
 		return true
 	})
@@ -516,6 +538,9 @@ func (vc *VC) checkPosts(st *State, rets []*Value, pos token.Pos, entryNames map
 	c := vc.contract
 	if c == nil {
 		return
+	}
+	if vc.oblCount[vc.fname+"#vacuity.exit"] < 3 {
+		vc.vacuity(st, "exit", pos)
 	}
 	names := map[string]*Value{}
 	for k, v := range entryNames {
@@ -632,7 +657,49 @@ func (vc *VC) initialSym(st *State, comp string) string {
 }
 
 // finishObligations attaches declarations/axioms to every obligation (after the run, when all are known).
+// sqlVerbCode: the SQL statement kind a text starts with (0: none / not a constant word).
+func sqlVerbCode(s string) int {
+	w := strings.TrimLeft(s, " \t\n")
+	if i := strings.IndexAny(w, " \t\n("); i >= 0 {
+		w = w[:i]
+	}
+	switch strings.ToUpper(w) {
+	case "SELECT":
+		return 1
+	case "INSERT":
+		return 2
+	case "UPDATE":
+		return 3
+	case "DELETE":
+		return 4
+	case "CREATE":
+		return 5
+	case "DROP":
+		return 6
+	case "ALTER":
+		return 7
+	case "PRAGMA":
+		return 8
+	}
+	return 0
+}
+
 func (vc *VC) finishObligations() {
+	if _, ok := vc.decls["sqlverb"]; ok {
+		for _, lit := range sortedKeys(vc.strlits) {
+			vc.addAxiom(smtEq(app("sqlverb", vc.strlits[lit]), fmt.Sprint(sqlVerbCode(lit))))
+		}
+	}
+	if vc.contract != nil {
+		for _, ca := range vc.contract.CallAsserts {
+			if !vc.callAssertSeen[fmt.Sprintf("%s %d %s", ca.Callee, ca.Ord, ca.Clause.Label)] {
+				// the call the assertion is anchored at does not exist (any more): the assertion cannot be established
+				o := &Obligation{ID: fmt.Sprintf("%s#callsite.%s%d.%s@0", vc.fname, ca.Callee, ca.Ord, ca.Clause.Label), Family: fmt.Sprintf("%s#callsite.%s%d.%s", vc.fname, ca.Callee, ca.Ord, ca.Clause.Label),
+					Kind: "callsite", Func: vc.fname, Text: "callsite " + ca.Callee + " " + fmt.Sprint(ca.Ord) + ": no such call is reached", Goal: "false"}
+				vc.obls = append(vc.obls, o)
+			}
+		}
+	}
 	ax := append([]string(nil), vc.axioms...)
 	var distinct [][]string
 	if len(vc.strlits) > 1 {
